@@ -98,6 +98,9 @@ pub enum Step {
     Never,
     /// Ready(Ok|Err) for futures, Some(item) for streams
     Yield(bool),
+    /// like Yield(true), but the child invokes its own waker first (a child
+    /// may wake itself and complete / yield in the same poll)
+    WakeYield,
     /// streams: end now (futures: Ready(Ok))
     End,
     /// fault injection: panic inside poll
@@ -765,7 +768,7 @@ pub fn leaf_size_hint(id: NodeId) -> (usize, Option<usize>) {
             let mut n = 0;
             for s in rest {
                 match s {
-                    Step::Yield(_) => n += 1,
+                    Step::Yield(_) | Step::WakeYield => n += 1,
                     Step::End => break,
                     _ => {}
                 }
@@ -790,6 +793,7 @@ pub enum LeafOut {
 }
 
 enum Act {
+    WakeYield,
     Pend,
     SelfWake,
     WakeSib(NodeId),
@@ -845,6 +849,7 @@ pub fn leaf_poll(id: NodeId, cx: &mut Context<'_>) -> LeafOut {
             }
             Step::Never => (Answer::Pend(PendKind::Never), Act::Pend),
             Step::Yield(ok) => (Answer::Pend(PendKind::Comb), Act::Yield(ok)), // fixed below
+            Step::WakeYield => (Answer::Pend(PendKind::Comb), Act::WakeYield), // fixed below
             Step::End => {
                 if flavor == Flavor::S {
                     (Answer::End, Act::End)
@@ -864,7 +869,7 @@ pub fn leaf_poll(id: NodeId, cx: &mut Context<'_>) -> LeafOut {
         match act {
             Act::End => n.finished_at = Some(begin),
             Act::Panic => n.panicked = true,
-            Act::SelfWake => {
+            Act::SelfWake | Act::WakeYield => {
                 n.wakers.last_mut().unwrap().fires.push(begin);
             }
             _ => {}
@@ -872,7 +877,7 @@ pub fn leaf_poll(id: NodeId, cx: &mut Context<'_>) -> LeafOut {
         if w.trace_on {
             let p = w.path(id);
             let a = w.nodes[id].polls.last().unwrap().answer.show();
-            if !matches!(act, Act::Yield(_)) {
+            if !matches!(act, Act::Yield(_) | Act::WakeYield) {
                 w.trace.push(format!("    poll {} -> {}", p, a));
             }
         }
@@ -888,7 +893,11 @@ pub fn leaf_poll(id: NodeId, cx: &mut Context<'_>) -> LeafOut {
             fire(t, 0, false);
             LeafOut::Pending
         }
-        Act::Yield(ok) => {
+        Act::Yield(_) | Act::WakeYield => {
+            let ok = !matches!(act, Act::Yield(false));
+            if matches!(act, Act::WakeYield) {
+                cx.waker().wake_by_ref();
+            }
             let tok = with(|w| {
                 let tok = w.new_tok(id);
                 let now = w.clock;
